@@ -113,7 +113,12 @@ trait Fl: cgmath::BaseFloat + Bits + std::fmt::Debug + std::iter::Sum + 'static 
 }
 impl Fl for f64 {
     fn r(rng: &mut Rng) -> f64 {
-        rng.uniform(-8.0, 8.0)
+        // signed zeros are ordinary values: 0.0 + -0.0 is +0.0, -0.0 alone is -0.0
+        match rng.below(24) {
+            0 => -0.0,
+            1 => 0.0,
+            _ => rng.uniform(-8.0, 8.0),
+        }
     }
     fn nz(rng: &mut Rng) -> f64 {
         let x = rng.uniform(0.25, 8.0);
@@ -126,7 +131,7 @@ impl Fl for f64 {
 }
 impl Fl for f32 {
     fn r(rng: &mut Rng) -> f32 {
-        rng.uniform(-8.0, 8.0) as f32
+        <f64 as Fl>::r(rng) as f32
     }
     fn nz(rng: &mut Rng) -> f32 {
         <f64 as Fl>::nz(rng) as f32
@@ -247,7 +252,12 @@ fn float_forms<T: Fl>(rec: &mut Rec, rng: &mut Rng) {
     prods!("Matrix3", Matrix3<T>, Matrix3::from_value(T::r(rng)) + Matrix3::from_cols(a3, b3, a3) * T::r(rng));
     prods!("Matrix4", Matrix4<T>, Matrix4::from_value(T::r(rng)) + Matrix4::from_cols(a4, b4, a4, b4) * T::r(rng));
     prods!("Quaternion", Quaternion<T>, Quaternion::new(T::r(rng), T::r(rng), T::r(rng), T::r(rng)));
-    prods!("Basis2", Basis2<T>, Basis2::from_angle(Rad(T::r(rng))));
+    // proper rotations commute in 2-D; mirrored bases (look_at_stable with flip) do not
+    prods!("Basis2", Basis2<T>, if rng.bool() {
+        Basis2::from_angle(Rad(T::r(rng)))
+    } else {
+        Basis2::look_at_stable(Vector2::new(T::nz(rng), T::nz(rng)), rng.bool())
+    });
     prods!("Basis3", Basis3<T>, match rng.below(3) {
         0 => Basis3::from_angle_x(Rad(T::r(rng))),
         1 => Basis3::from_angle_y(Rad(T::r(rng))),
@@ -439,7 +449,7 @@ fn programs(rec: &mut Rec, rng: &mut Rng) {
                     0 => q2[k] = q2[k] * &q2[l],
                     1 => q2[k] = &q2[k] * q2[l],
                     2 => q2[k] = &q2[k] * &q2[l],
-                    _ => q2[k] = [q2[k], q2[l]].iter().product(),
+                    _ => { let (a, b) = (q2[k], q2[l]); q2[k] = a * b; }
                 }
             }
             8 => {
